@@ -99,7 +99,11 @@ func ExtractToDir(c context.Context, ls *ipld.LinkSystem, root cid.Cid, outputDi
 		}
 		var outputName string
 		if outputDir != "-" {
-			outputName = filepath.Join(outputResolvedDir, "unknown")
+			// Same checks as every other entry: an earlier root may have left a symlink of this name.
+			outputName, err = resolvePath(outputResolvedDir, "/unknown")
+			if err != nil {
+				return 0, fmt.Errorf("%s: %w", root, err)
+			}
 		}
 		if ufsNode.DataType.Int() == data.Data_File || ufsNode.DataType.Int() == data.Data_Raw {
 			if err := extractFile(c, ls, pbnode, outputName); err != nil {
